@@ -25,7 +25,8 @@ pub enum Status {
     Ready,
     Running,
     WantLock(LockId),
-    CvWait { cv: usize, notified: bool },
+    /// `timed`: a bounded wait; it ends when the harness advances the virtual clock past `since_tick`
+    CvWait { cv: usize, notified: bool, timed: Option<u64> },
     /// waiting for a command of the harness (not blocked by the tower)
     Idle,
     Finished,
@@ -81,6 +82,10 @@ pub struct SState {
     /// reaches a block boundary or finishes
     pub script: Option<Vec<String>>,
     script_pos: usize,
+    /// virtual clock for bounded condvar waits; only the harness advances it
+    pub tick: u64,
+    /// the harness judges progress itself (bounded-progress protocols): do not abort on a stuck state
+    pub no_auto_stuck: bool,
 }
 
 pub struct Sched {
@@ -136,6 +141,8 @@ impl Sched {
                 held_back: BTreeSet::new(),
                 script: None,
                 script_pos: 0,
+                tick: 0,
+                no_auto_stuck: false,
             }),
             cv: Condvar::new(),
         })
@@ -175,7 +182,7 @@ impl Sched {
         match &st.threads[t].status {
             Status::Ready | Status::Running => true,
             Status::WantLock(l) => !st.owner.contains_key(&l.id),
-            Status::CvWait { notified, .. } => *notified,
+            Status::CvWait { notified, timed, .. } => *notified || timed.map_or(false, |t| st.tick > t),
             Status::Idle | Status::Finished => false,
         }
     }
@@ -190,6 +197,13 @@ impl Sched {
         }
         // threads parked by the cycle driver count as blocked only if everyone else is blocked too
         if unfinished.iter().any(|t| Self::enabled(st, *t)) {
+            return;
+        }
+        if unfinished.iter().any(|t| matches!(st.threads[*t].status, Status::CvWait { timed: Some(_), .. })) {
+            // a bounded wait ends by itself once (virtual) time passes
+            return;
+        }
+        if st.no_auto_stuck {
             return;
         }
         if !st.held_back.is_empty() {
@@ -454,6 +468,43 @@ impl Sched {
         self.cv.notify_all();
     }
 
+    /// Lets (virtual) time pass: every bounded wait in progress times out.
+    pub fn advance_time(&self) {
+        let mut st = self.lock();
+        st.tick += 1;
+        if st.serial && (st.current.is_none() || !Self::enabled(&st, st.current.unwrap())) {
+            Self::pick(&mut st);
+        }
+        self.cv.notify_all();
+    }
+
+    /// Whether the named thread cannot continue without somebody else's action: it waits for a
+    /// notification, or for a lock whose owner is (transitively) blocked. Returns a description.
+    pub fn blocked(&self, name: &str) -> Option<String> {
+        let st = self.lock();
+        let mut t = st.threads.iter().position(|x| x.name == name)?;
+        let mut path = Vec::new();
+        for _ in 0..st.threads.len() + 1 {
+            let ti = &st.threads[t];
+            match &ti.status {
+                Status::CvWait { notified: false, timed: Some(t), .. } if st.tick > *t => return None, // its bounded wait has expired: it is about to run
+                Status::CvWait { notified: false, timed, .. } => {
+                    path.push(format!("{} waits on the bitcoind_reachable condvar{} holding {:?}", ti.name, if timed.is_some() { " (bounded)" } else { "" }, ti.held.iter().map(|l| short(l.class)).collect::<Vec<_>>()));
+                    return Some(path.join("; "));
+                }
+                Status::WantLock(l) => match st.owner.get(&l.id) {
+                    Some(o) if *o != t => {
+                        path.push(format!("{} wants {} held by {}", ti.name, short(l.class), st.threads[*o].name));
+                        t = *o;
+                    }
+                    _ => return None,
+                },
+                _ => return None,
+            }
+        }
+        Some(path.join("; "))
+    }
+
     pub fn status_of(&self, name: &str) -> Option<Status> {
         let st = self.lock();
         st.threads.iter().find(|t| t.name == name).map(|t| t.status.clone())
@@ -548,7 +599,7 @@ impl Observer for Sched {
     fn cv_wait_begin(&self, cv: usize, _lock: LockId) {
         if let Some(me) = TID.with(|t| t.get()) {
             let mut st = self.lock();
-            st.threads[me].status = Status::CvWait { cv, notified: false };
+            st.threads[me].status = Status::CvWait { cv, notified: false, timed: None };
             Self::record_sync(&mut st, me, "wait(bitcoind_reachable)");
         }
     }
@@ -567,10 +618,33 @@ impl Observer for Sched {
         st.threads[me].status = Status::Running;
     }
 
+    fn cv_block_timeout(&self, _cv: usize, _lock: LockId, _dur: std::time::Duration) -> bool {
+        let me = match TID.with(|t| t.get()) {
+            Some(m) => m,
+            None => return false,
+        };
+        let mut st = self.lock();
+        let since = st.tick;
+        if let Status::CvWait { timed, .. } = &mut st.threads[me].status {
+            *timed = Some(since);
+        }
+        let mut st = if st.serial {
+            self.yield_point(st, me)
+        } else {
+            self.wait_until(st, move |s| match &s.threads[me].status {
+                Status::CvWait { notified, timed, .. } => *notified || timed.map_or(false, |t| s.tick > t),
+                _ => true,
+            })
+        };
+        let timed_out = !matches!(st.threads[me].status, Status::CvWait { notified: true, .. });
+        st.threads[me].status = Status::Running;
+        timed_out
+    }
+
     fn cv_notify(&self, cv: usize) {
         let mut st = self.lock();
         for t in st.threads.iter_mut() {
-            if let Status::CvWait { cv: c, notified } = &mut t.status {
+            if let Status::CvWait { cv: c, notified, .. } = &mut t.status {
                 if *c == cv {
                     *notified = true;
                 }
